@@ -230,6 +230,10 @@ def incrAsIs (W : Nat) (e : Option Win) (now : Nat) : Win :=
   | none => { cur := 1, prev := 0, ws := ws }
   | some w => if w.ws < ws then { cur := 1, prev := w.cur, ws := ws } else { w with cur := w.cur + 1 }
 
+/-- `InMemoryStore.cleanupLoop` (every 5 minutes, `now` in Unix seconds): an entry is dropped when its window
+    started more than two hours ago and the window after its own has ended -/
+def dropsWin (W nowSec : Nat) (w : Win) : Bool := decide (w.ws + 7200 < nowSec) && decide (w.ws + 2 * W ≤ nowSec)
+
 /-- what the middleware computes between `GetCounts` and the response: `int(effectiveUsage)`,
     `remaining`, `resetSeconds`. `effectiveUsage = curr + prev * max(0, 1 - elapsed/W)` with
     `elapsed = min(now - windowStart, W)`; times `W·10⁹` it is the integer `num`. -/
